@@ -25,3 +25,17 @@ spec fn wdecode_post(s0: DecoderState, input: Seq<u8>, b0: Seq<u8>, b1: Seq<u8>,
         Err(_) => s is Fail,
     }
 }
+
+// C17 (codec half): encode_read / decode_read process exactly the bytes the read returned.
+spec fn encodes_bytes(pre: &Encoder, post: &Encoder, s: Seq<u8>) -> bool {
+    forall|z: Seq<u8>| #[trigger] post.sem(z) == pre.sem(s + z)
+}
+spec fn read_encoded(pre: &Encoder, post: &Encoder, n: int) -> bool {
+    exists|s: Seq<u8>| s.len() == n && #[trigger] encodes_bytes(pre, post, s)
+}
+spec fn decodes_bytes(pre_state: DecoderState, pre_bytes: Seq<u8>, post: &Decoder, s: Seq<u8>) -> bool {
+    wdecode_post(pre_state, s, pre_bytes, post.iovec.bytes(), post.state, Ok(()))
+}
+spec fn read_decoded(pre_state: DecoderState, pre_bytes: Seq<u8>, post: &Decoder, n: int) -> bool {
+    exists|s: Seq<u8>| s.len() == n && #[trigger] decodes_bytes(pre_state, pre_bytes, post, s)
+}
